@@ -44,6 +44,10 @@ struct Scen {
 	// tests, which use 3t < n); scenarios with n/3 <= t < n/2 set it to floor((n-1)/3), what a deployment has to do,
 	// and let at most that many parties deviate
 	size_t trbc = (size_t)-1;
+	// CGJKR DKG only: Refresh through its index-mapped overload Refresh(n, idx, idx2dkg, dkg2idx, ...) on a second network where
+	// the party with DKG index d sits at channel index (d + maprot) mod n (maprot = 0: the plain overload on the first network).
+	// Deviations of such a scenario act in the refresh phase; victim indices are translated to channel indices.
+	size_t maprot = 0;
 	size_t rbc_t() const { return trbc == (size_t)-1 ? t : trbc; }
 	bool faulty(size_t i) const { return std::find(F.begin(), F.end(), i) != F.end(); }
 	const Dev *dev_of(size_t i) const { for (size_t a = 0; a < F.size(); a++) if (F[a] == i) return &devs[a]; return nullptr; }
@@ -51,6 +55,7 @@ struct Scen {
 		J j; j.kv("proto", PNAME[proto]).kv("n", (long long)n).kv("t", (long long)t);
 		if (tp != t) j.kv("tprime", (long long)tp);
 		if (trbc != (size_t)-1) j.kv("rbc_t", (long long)trbc);
+		if (maprot) j.kv("refresh_channel_index_rotation", (long long)maprot);
 		j.arrn("F", F);
 		std::string d = "["; for (size_t a = 0; a < devs.size(); a++) { if (a) d += ","; d += devs[a].json(); } d += "]";
 		j.raw("devs", d);
@@ -102,9 +107,10 @@ struct Snap {
 
 struct Party {
 	size_t i = 0; DevUnicast *aiou = nullptr, *aiou2 = nullptr; RBC *rbc = nullptr;
+	DevUnicast *maiou = nullptr, *maiou2 = nullptr; RBC *mrbc = nullptr;      // endpoints on the re-numbered network
 	PedersenVSS *pvss = nullptr; GJKR *gjkr = nullptr; CRVSS *rvss = nullptr; CZVSS *zvss = nullptr; CDKG *cdkg = nullptr; JLRVSS *jl = nullptr;
 	std::stringstream err[2]; Snap snap[2]; bool dead = false;
-	~Party() { delete pvss; delete gjkr; delete rvss; delete zvss; delete cdkg; delete jl; delete rbc; delete aiou; delete aiou2; }
+	~Party() { delete pvss; delete gjkr; delete rvss; delete zvss; delete cdkg; delete jl; delete rbc; delete aiou; delete aiou2; delete mrbc; delete maiou; delete maiou2; }
 };
 
 static void copy_mat(std::vector<std::vector<Z>> &dst, const std::vector<std::vector<mpz_ptr>> &src) {
@@ -170,6 +176,18 @@ static void party_main(World &W, const Scen &sc, const Group &G, Party &P, long 
 	mpz_mul(P.aiou2->gh.v, G.g.v, G.h.v); mpz_mod(P.aiou2->gh.v, P.aiou2->gh.v, G.p.v);
 	const Dev *dv = sc.dev_of(i);
 	if (dv) { P.aiou->dev = *dv; P.aiou2->dev = *dv; }
+	std::map<size_t, size_t> idx2dkg, dkg2idx; size_t mi = i;
+	if (sc.maprot) {
+		for (size_t d = 0; d < n; d++) { size_t c = (d + sc.maprot) % n; dkg2idx[d] = c; idx2dkg[c] = d; }
+		mi = dkg2idx[i];
+		P.maiou = new DevUnicast(n, mi, &W.uni2, &W, false, T_PRIV);
+		P.maiou2 = new DevUnicast(n, mi, &W.bc2, &W, true, T_RBC);
+		P.mrbc = new RBC(n, sc.rbc_t(), mi, P.maiou2, aiounicast::aio_scheduler_roundrobin, T_RBC);
+		P.mrbc->setID("c15-mapped-refresh");
+		P.maiou2->rbc = P.mrbc; P.maiou->q = G.q; P.maiou2->q = G.q; P.maiou2->gh = P.aiou2->gh;
+		P.maiou->mutev = &W.mute2; P.maiou2->mutev = &W.mute2; P.maiou->statj = i; P.maiou2->statj = i;
+		if (dv) { Dev d2 = *dv; d2.victim = dkg2idx[dv->victim % n]; P.maiou->dev = d2; P.maiou2->dev = d2; P.aiou->dev = Dev(); P.aiou2->dev = Dev(); }
+	}
 	mpz_srcptr p = G.p.v, q = G.q.v, g = G.g.v, h = G.h.v;
 	switch (sc.proto) {
 	case P_PVSS: P.pvss = new PedersenVSS(n, t, i, p, q, g, h, G.fs, G.gs, false); break;
@@ -182,6 +200,7 @@ static void party_main(World &W, const Scen &sc, const Group &G, Party &P, long 
 	Z sigma; if (sc.proto == P_PVSS) pick_sigma(sigma, sc, G, kcase);
 	for (int ph = 0; ph < nphases(sc.proto); ph++) {
 		P.aiou->enter_phase(ph); P.aiou2->enter_phase(ph);
+		if (P.maiou) { P.maiou->enter_phase(ph); P.maiou2->enter_phase(ph); }
 		bool flag = dv && dv->kind == D_BUILTIN && (dv->phase < 0 || dv->phase == ph);
 		Snap &s = P.snap[ph]; s.vstart = g_vtime;
 		bool run = !P.dead;
@@ -203,6 +222,7 @@ static void party_main(World &W, const Scen &sc, const Group &G, Party &P, long 
 				case P_ZVSS: s.ret = P.zvss->Share(P.aiou, P.rbc, P.err[ph], flag); break;
 				case P_CDKG:
 					if (ph == 0) s.ret = P.cdkg->Generate(P.aiou, P.rbc, P.err[ph], flag);
+					else if (sc.maprot) s.ret = P.cdkg->Refresh(n, mi, idx2dkg, dkg2idx, P.maiou, P.mrbc, P.err[ph], flag);
 					else s.ret = P.cdkg->Refresh(n, i, P.aiou, P.rbc, P.err[ph], flag);
 					break;
 				case P_JLRVSS: s.ret = P.jl->Share(i, P.aiou, P.rbc, P.err[ph], flag); break;
@@ -212,7 +232,7 @@ static void party_main(World &W, const Scen &sc, const Group &G, Party &P, long 
 			capture(sc, P, ph);
 		}
 		s.vend = g_vtime;
-		W.bar.arrive_and_serve(i, P.rbc);
+		W.bar.arrive_and_serve(i, (sc.maprot && ph == 1) ? P.mrbc : P.rbc);
 	}
 }
 
@@ -287,7 +307,7 @@ static bool scan_timeouts(Verdicts &V, std::vector<Party *> &P, int ph) {
 			// party): a party that waits on its private links stalls it.  Documented resilience limit: recorded, not judged.
 			count(std::string("stall_beyond_rbc_bound.") + PNAME[sc.proto]); V.beyond_bound_stall = true; return true;
 		}
-		long rq = 0; for (auto q : P) if (q->aiou2) rq += q->aiou2->rreq[ph];
+		long rq = 0; for (auto q : P) { if (q->aiou2) rq += q->aiou2->rreq[ph]; if (q->maiou2) rq += q->maiou2->rreq[ph]; }
 		V.viol("honest-timeout", ph, "an honest party ran into a time-out waiting for a message of another honest party although every link delivers within 3 s", J().kv("party", (long long)i).kv("waiting_for", honest_from[i]).kv("log_line", honest_line[i]).kv("r_requests_sent_in_phase", rq));
 		return true;
 	}
@@ -630,6 +650,20 @@ static void build_list(std::vector<Scen> &L) {
 			}
 		}
 	}
+	// ---- CGJKR DKG: Refresh through the index-mapped overload on a re-numbered network (appended last)
+	if (only_proto < 0 || only_proto == P_CDKG) {
+		int reps = quick ? 1 : 4;
+		for (int rep = 0; rep < reps; rep++) for (size_t n = 4; n <= 5; n++) {
+			{ Scen sc = base(P_CDKG, n, 1); sc.maprot = 1 + r.below(n - 1); set_net(sc, (int)r.below(4), r); add(sc); }
+			for (int kind : {D_FALSE_COMPLAINT, D_WRONG_SHARE, D_BAD_REVEAL, D_BC_ALTER, D_SILENT, D_UNANSWERED, D_BUILTIN}) {
+				if (quick && n == 5 && (kind == D_BC_ALTER || kind == D_SILENT || kind == D_BUILTIN)) continue;
+				Scen sc = base(P_CDKG, n, 1); sc.maprot = 1 + r.below(n - 1); size_t f = r.below(n); sc.F = {f};
+				Dev d = make_dev(kind, sc, f, r); if (kind != D_BUILTIN) d.phase = 1;
+				if (kind == D_FALSE_COMPLAINT) { d.k = 1; d.k2 = 1; }
+				sc.devs = {d}; add(sc);
+			}
+		}
+	}
 }
 
 // ------------------------------------------------------------------ one case
@@ -677,7 +711,7 @@ static void run_case(long k, const Scen &sc) {
 		vdur = g_vtime - t0; hung = W.sched.hung;
 		for (auto t : W.sched.tasks) { parks += t->spin_parks; if (t->threw_other) V.viol("exception", 0, "non-standard exception escaped a party task", J().kv("party", t->id)); }
 		sent_uni = W.uni.sent; sent_bc = W.bc.sent; switches = W.sched.switches; mute_drops = W.dropped_mute;
-		for (auto p : P) if ((p->aiou && p->aiou->fired) || (p->aiou2 && p->aiou2->fired)) fired_devs++;
+		for (auto p : P) if ((p->aiou && p->aiou->fired) || (p->aiou2 && p->aiou2->fired) || (p->maiou && p->maiou->fired) || (p->maiou2 && p->maiou2->fired)) fired_devs++;
 		// endpoints reference the nets: release the parties' channel objects before the world goes away
 		if (hung) V.viol("hang", 0, "all parties blocked without a deadline", J().kv("vtime", vdur));
 		else {
@@ -702,7 +736,8 @@ static void run_case(long k, const Scen &sc) {
 				}
 			}
 		}
-		for (auto p : P) { delete p->rbc; p->rbc = nullptr; delete p->aiou; p->aiou = nullptr; delete p->aiou2; p->aiou2 = nullptr; }
+		for (auto p : P) { delete p->rbc; p->rbc = nullptr; delete p->aiou; p->aiou = nullptr; delete p->aiou2; p->aiou2 = nullptr;
+			delete p->mrbc; p->mrbc = nullptr; delete p->maiou; p->maiou = nullptr; delete p->maiou2; p->maiou2 = nullptr; }
 	}
 	// -------- evidence
 	std::string cell = std::string(PNAME[sc.proto]) + ".n" + std::to_string(sc.n) + ".t" + std::to_string(sc.t) + ".f" + std::to_string(sc.F.size());
